@@ -218,7 +218,6 @@ package websockets
 //@   assigns nothing
 //@   go-opaque NewConnection$1
 //@   go-opaque NewConnection$2
-//@   go-opaque NewConnection$3
 //@   ghost dials int = 0
 //@   call (*websocket.Dialer).Dial
 //@     assert[C13:dial-the-given-url-once] dials == 0 && arg1 == targetURL
@@ -352,3 +351,17 @@ package websockets
 //@     assert[C14:close-closes-the-original-body] calls == 0 && arg0 == sb.closer
 //@     do calls = calls + 1
 //@   ensures[C14:close-once] calls == 1
+
+// the closer goroutine: once the session's context is done (Close was called, or either relay failed) the backend
+// websocket is closed, exactly once (C12: closing a session closes the backend websocket)
+//@ func NewConnection$3 props(C12,C07)
+//@   at serverConn.Close()
+//@   requires serverConn != nil && ctx != nil
+//@   ghost closes int = 0
+//@   ghost done int = 0
+//@   recv Done
+//@     do done = done + 1
+//@   call (*websocket.Conn).Close
+//@     assert[C12:backend-websocket-closed-only-after-the-session-ended] arg0 == serverConn && closes == 0
+//@     do closes = closes + 1
+//@   ensures[C12:backend-websocket-closed-when-the-session-ends] closes == 1
